@@ -383,7 +383,15 @@ impl<'s, const M: usize> Exec<'s, M> {
         let r = self.call_mut(|b| {
             // iteration obtains no memory; the collecting Vecs are the harness's
             let _g = simalloc::harness_scope();
-            let safe: Vec<(usize, usize)> = b.iter_allocated_chunks().map(|s| (s.as_ptr() as usize, s.len())).collect();
+            let mut it = b.iter_allocated_chunks();
+            let mut safe: Vec<(usize, usize)> = Vec::new();
+            while let Some(s) = it.next() {
+                safe.push((s.as_ptr() as usize, s.len()));
+            }
+            // the iterators are fused: once finished they stay finished
+            if it.next().is_some() || it.next().is_some() {
+                safe.push((0, usize::MAX));
+            }
             let raw: Vec<(usize, usize)> = unsafe { b.iter_allocated_chunks_raw() }.map(|(p, n)| (p as usize, n)).collect();
             (safe, raw)
         });
